@@ -360,6 +360,10 @@ fn check(b: &Built, rep: &mut Report) {
         rep.violation("C09/server-never-quiescent", desc(), replay());
         return;
     }
+    if scn.wake {
+        rep.count("wake_driven_cases");
+        rep.add("wake_driven_waker_firings", a.wakes);
+    }
     let last = a.checkpoints.last();
     if let Some(cp) = last {
         if cp.dropped[f] {
@@ -446,6 +450,7 @@ pub fn run(cfg: &Cfg) -> Report {
             for k in 0..per {
                 let nhealthy = if miri { 1 } else { rng.range(1, 3) };
                 let mut b = build(&mut rng, kind, pos, nhealthy, small);
+                b.scn.wake = rng.chance(1, 3);
                 let total = count_interleavings(&b.chains.iter().map(|c| c.len()).collect::<Vec<_>>());
                 let cap = if miri { 4 } else if small { 6 } else { 300 };
                 if total <= cap && k % 2 == 0 {
